@@ -1,6 +1,7 @@
 import GoRes.Model.StoreMap
 import GoRes.Lemmas.StoreMap
 import GoRes.Lemmas.Txn
+import GoRes.Generated.Access
 /-! # C12 — acknowledged writes survive a crash; Init seeds once; indexes rebuild
 (partial: BadgerDB's own atomicity and durability of one `Update` transaction, and the OS, are
 trusted; the crash harness kills a real process at the instrumented points and compares the
@@ -145,5 +146,46 @@ example : let db : Txn.DB Nat := {}
 
 example : (initOnce [([1], 5)] ({ vals := [], marker := false } : Disk Nat)).vals = [([1], 5)] := by decide
 example : (commit (commit (initOnce [([1], 5)] ({} : Disk Nat)) (.put [1] none)) (.init [([1], 5)])).vals = [] := by decide
+
+/-! ## the Go function has the shape of the modelled program
+
+`Generated.initShape` (rewritten from /repo's store/badgerstore/store.go on every run) is the
+database-relevant skeleton of `Store.Init` in source order.  `Txn.initProg`, `all_or_nothing` and
+`init_once` are about *one* transaction that reads the marker, reads each seed id through the
+transaction before writing it, writes the marker, and whose listeners run after the commit.  The
+theorem below says the source is that program: one update transaction; every transactional read and
+write lies inside it and nothing is looked up beside it (`blind_lookup_loses_a_write` is what
+happens otherwise); the marker is the first thing read and is written inside the same transaction,
+after the seeds (a marker written by a second transaction leaves a crash window with seeds but no
+marker: seeds deleted later would be resurrected); listeners are told after the transaction. -/
+
+def between (xs : List String) : List String :=
+  ((xs.dropWhile (· != "update{")).drop 1).takeWhile (· != "}update")
+
+def initShapeOk (xs : List String) : Bool :=
+  let inside := between xs
+  let before := xs.takeWhile (· != "update{")
+  let after := ((xs.dropWhile (· != "}update")).drop 1)
+  xs.count "update{" == 1 && xs.count "}update" == 1 &&
+  -- nothing transactional, no other lookup and no notification outside the one transaction / before its end
+  before.all (fun x => !(x.startsWith "txn." || x.startsWith "beside:" || x.startsWith "notify:")) &&
+  after.all (fun x => !(x.startsWith "txn." || x.startsWith "beside:")) &&
+  inside.all (fun x => x.startsWith "txn.get:" || x.startsWith "txn.set:") &&
+  -- marker read first, marker written last, seeds read before they are written
+  inside.head? == some "txn.get:marker" &&
+  inside.getLast? == some "txn.set:marker" &&
+  inside.count "txn.set:marker" == 1 &&
+  (inside.takeWhile (· != "txn.set:seed")).contains "txn.get:seed" &&
+  inside.contains "txn.set:seed" &&
+  -- the listeners are told, and only after the commit
+  after.any (·.startsWith "notify:")
+
+theorem init_source_is_the_modelled_program : initShapeOk Generated.initShape = true := by
+  decide +kernel
+
+-- the predicate rejects the shapes it is meant to reject
+example : initShapeOk ["update{", "txn.get:marker", "txn.get:seed", "txn.set:seed", "}update", "update{", "txn.set:marker", "}update", "notify:callOnChange"] = false := by decide +kernel
+example : initShapeOk ["update{", "txn.get:marker", "beside:Get", "txn.set:seed", "txn.set:marker", "}update", "notify:callOnChange"] = false := by decide +kernel
+example : initShapeOk ["update{", "txn.get:marker", "txn.get:seed", "txn.set:seed", "notify:callOnChange", "txn.set:marker", "}update"] = false := by decide +kernel
 
 end GoRes.Props.C12
